@@ -145,7 +145,9 @@ func altModfile(work string) (string, error) {
 	return mf, nil
 }
 
-func build(pkg string, race bool, out string) error {
+func build(pkg string, race bool, out string) error { return buildArch(pkg, race, "", out) }
+
+func buildArch(pkg string, race bool, goarch string, out string) error {
 	args := []string{"build", "-tags", "verif"}
 	if mf, err := altModfile(out); err != nil {
 		return err
@@ -162,6 +164,9 @@ func build(pkg string, race bool, out string) error {
 	if !race {
 		// pure-Go binaries: no cgo threads with 8 MiB stacks, so a monitor also runs under a small address-space limit
 		cmd.Env = append(cmd.Env, "CGO_ENABLED=0")
+	}
+	if goarch != "" {
+		cmd.Env = append(cmd.Env, "GOARCH="+goarch)
 	}
 	var buf bytes.Buffer
 	cmd.Stdout = &buf
@@ -259,8 +264,16 @@ func runProperty(sp *propSpec, tier string, seed uint64, work string, start time
 			needPlain = true
 		}
 	}
-	var berr [2]error
+	var berr [3]error
 	var wg sync.WaitGroup
+	for _, r := range sp.Runs {
+		if r.GOARCH != "" && r.Shards[ti] > 0 {
+			arch := r.GOARCH
+			wg.Add(1)
+			go func() { defer wg.Done(); berr[2] = buildArch(sp.Pkg, false, arch, filepath.Join(work, "mon."+arch)) }()
+			break
+		}
+	}
 	if needPlain {
 		wg.Add(1)
 		go func() { defer wg.Done(); berr[0] = build(sp.Pkg, false, filepath.Join(work, binName(false))) }()
@@ -311,6 +324,9 @@ func runChild(sp *propSpec, oc *childOutcome, tier string, seed uint64, work str
 		}
 	}
 	bin := filepath.Join(work, binName(r.Race))
+	if r.GOARCH != "" {
+		bin = filepath.Join(work, "mon."+r.GOARCH)
+	}
 	oc.logPath = filepath.Join(work, fmt.Sprintf("child-%s-%d.log", r.Mode, oc.shard))
 	args := []string{"-s", "QUIT", "-k", "20", strconv.Itoa(tmo), bin,
 		"-tier", tier, "-seed", strconv.FormatUint(seed, 10), "-shard", strconv.Itoa(oc.shard),
@@ -795,7 +811,11 @@ func cmdReplay(args []string) int {
 	work := filepath.Join(verifRoot, ".work", fmt.Sprintf("replay-%s-%d", rep.Property, os.Getpid()))
 	_ = os.MkdirAll(work, 0o755)
 	defer os.RemoveAll(work)
-	if err := build(sp.Pkg, rs.Race, filepath.Join(work, binName(rs.Race))); err != nil {
+	rbin := filepath.Join(work, binName(rs.Race))
+	if rs.GOARCH != "" {
+		rbin = filepath.Join(work, "mon."+rs.GOARCH)
+	}
+	if err := buildArch(sp.Pkg, rs.Race, rs.GOARCH, rbin); err != nil {
 		fmt.Fprintln(os.Stderr, err)
 		return 2
 	}
